@@ -30,6 +30,18 @@ OVERRIDE = {
  "C20": dict(technique="Coq proof (representation invariant + refinement of the segmented array deque and of the per-key queues to a plain deque / stable priority queue for all operation lists) + differential correspondence on all three Go queue types",
              text="Theorems in coq/Properties/C20.v: for all constructor parameters and all operation lists over Push/PushLeft/Pop/PopRight/Head/Tail/Len the segmented queue model returns exactly what a plain deque returns (invariant preserved, never panics); ring, priority ring, wait queue and holder queue keep FIFO / stable priority order across compaction and representation switches; refutation witnesses for Shrink, Restructuring and restructuringLong*Queue (known findings, replayed). Tie: a normalising diff proves the three Go queue types textually identical on every run; seeded operation sequences (incl. maintenance operations and holes) run on all three real types and on the extracted model comparing every return value and a full field dump.", note=NOTE_COMMON + " Iteration and maintenance operations (Resize, Rellac, Reset, Restructuring) are modelled and differential-tested but have no refinement lemma yet."),
 }
+# later extensions of the agent-written checks (kept apart from the original texts above)
+EXTRA_TEXT = {
+ "C07": " General simulation coq/Properties/C07_sim.v (C07_sim, C07_sim_two_clocks, writer / reader / stream lemmas): for every history of a stated sub-language (plain seconds-unit locks with Count 0, Rcount 0, Expried 1..65534, no waiters; any unlocks, clock advances, sweeps; any configured delay) the holds recovered from the record stream are exactly the persisted, still-live holds of the final state with deadline + 1; refutations show that the Count and Expried restrictions cannot be dropped (two recorded findings).",
+ "C09": " Also: hand-over of the two mutexes in Aof.PushLock as an interleaving semantics (ring order = file order for every schedule; refuted for the swapped order; variant derived from the source text), full-transfer boundary on rotated logs (transferred ++ live stream = log; offset-only comparison refuted), with a stress run of the real PushLock path and the real sendFiles on rotated logs.",
+ "C16": " Also: guard state machine of rewriteAofFiles (at most one compaction active, a request while one runs is dropped), appends never touch the compaction's inputs, busy compaction = quiescent compaction + appends at every crash prefix; workloads with renewals / re-entrancy / several compactions / restart chains; compactions parked at the crash points (hooks 200..211 committed in /repo) while requests and second compaction requests arrive; reference = a node replaying the same history without compaction.",
+ "C18": " Also: failing wills (unknown database) are consumed exactly once and do not stop the drain; routing invariants over all runs (a proxy only points at an open connection that announced the client id; clients[X] is the live connection that announced X last; no frame ever reaches a stranger; a reply is dropped only when no such connection exists) for the repaired adoption (AddProxy re-points under the adopter's mutex, /repo 5b4ff31), refuted for the unguarded variant; reconnect generations and close races (hook 13) in the generator.",
+ "C19": " Also coq/Properties/C19_handover.v: wait-queue model with timeouts and cancels; after a waiter times out the remaining waiters are still served by the next release (FIFO head / highest priority / all Event waiters), under two hypotheses read syntactically off server/db.go on every run (waited cleared only on an empty queue; unlock / timeout / cancel run the wake-up pass — discharged at engine level by the C04 theorems); liveness monitor on confirmed-queued waiters with mixed short / long timeouts for every primitive.",
+ "C20": " Also: long-wait tables (LongWaitLockQueue / LongWaitLockFreeQueue with in-place removal, restructuring, the Len()-times-Pop() consumer) refine a sequence-with-deletions for every operation list; Len counts slots including holes, lockCount - freeCount the live locks; wait-queue re-push from the mixed inline + ring state is a stable priority sort of both parts; directed generator reaching every representation state (counted in the evidence).",
+}
+for _k, _v in EXTRA_TEXT.items():
+    if _k in OVERRIDE:
+        OVERRIDE[_k]["text"] = OVERRIDE[_k]["text"] + _v
 checks, na = [], []
 for pid in ALL:
     p = os.path.join(VERIF, "checks", pid + ".py")
